@@ -190,6 +190,8 @@ class ExcelCompiler:
                 return '=' + a_cell.formula.python_code
             elif isinstance(a_cell.value, np.float64):
                 return float(a_cell.value)
+            elif isinstance(a_cell.value, np.integer):
+                return int(a_cell.value)
             else:
                 return a_cell.value
 
